@@ -174,7 +174,36 @@ func runWriterHistoryInner(cs *drv.Case, ops []wOp, o writerOpts) bool {
 		return true
 	}
 
+	// a second writer of the same goroutine used between the operations of the one under test
+	var shadowW *bufiox.DefaultWriter
+	if !san.PoolShim && cs.R.Intn(4) == 0 {
+		shadowW = bufiox.NewDefaultWriter(&doubles.Sink{})
+		cs.C.Obs("histories with a second writer interleaved", 1)
+	}
+	shadowStepW := func() {
+		if shadowW == nil {
+			return
+		}
+		switch cs.R.Intn(3) {
+		case 0:
+			if b, err := shadowW.Malloc(1 + cs.R.Intn(6000)); err == nil {
+				for k := range b {
+					b[k] = 0x5A
+				}
+			}
+		case 1:
+			shadowW.WriteBinary(bytes.Repeat([]byte{0x5B}, 1+cs.R.Intn(5000)))
+		default:
+			shadowW.Flush()
+		}
+	}
+	defer func() {
+		if shadowW != nil {
+			shadowW.Flush()
+		}
+	}()
 	for i, op := range ops {
+		shadowStepW()
 		if op.N > maxReq {
 			maxReq = op.N
 		}
